@@ -735,14 +735,16 @@ impl<T: ObjectStore> ObjectStore for EncryptedStore<T> {
     }
 
     async fn get_ranges(&self, location: &Path, ranges: &[Range<u64>]) -> Result<Vec<Bytes>> {
-        if ranges.is_empty() {
-            return Ok(Vec::new());
-        }
-
         let mut retried = false;
         'retry: loop {
+            // The object has to exist (and authenticate) even when no range
+            // is asked for: a missing key is `NotFound`, as with every other
+            // read.
             let meta = self.inner.get_meta(location).await?;
             self.verify_metadata(location, &meta)?;
+            if ranges.is_empty() {
+                return Ok(Vec::new());
+            }
             validate_ranges("EncryptedStore", ranges, meta.size)?;
 
             let chunk_size = self.read_chunk_size(&meta);
